@@ -5,7 +5,8 @@
 // Case functions (fn):
 //   1  encode:  input (tok fields)                output (0 #bytes refok) | (2)      — bytes incl. the token byte
 //   2  decode:  input (tok #body ctx expected)    output (class consumed fields)     — body = bytes after the token
-//   3  prefixes: input (tok #body ctx)            output (class ...) for every proper prefix of body (length 0..len-1)
+//   3  prefixes: input (tok #body ctx valid)      output (class ...) for every proper prefix of body (length 0..len-1);
+//                valid = 1 iff the implementation parses the whole body successfully consuming all of it
 //   4  malformed: input (tok #body ctx)           output (class)                     — arbitrary bytes; class only
 // class: 0 ok, 1 not enough bytes, 2 other error, -1 panic.
 // ctx: () or, for TDS_PARAMS / TDS_ROW, the format list the package is read with (see FmtTree).
@@ -14,6 +15,8 @@ package pk
 import (
 	"errors"
 	"fmt"
+	"path/filepath"
+	"runtime"
 
 	"github.com/SAP/go-dblib/tds"
 	"verifharness/sx"
@@ -27,15 +30,29 @@ type Gen struct {
 	Want map[int]bool
 }
 
-var registry []func(g *Gen)
+type regEntry struct {
+	group string
+	f     func(g *Gen)
+}
 
-// Register adds a generator (call from init()).
-func Register(f func(g *Gen)) { registry = append(registry, f) }
+var registry []regEntry
 
-// RunAll runs every registered generator.
-func RunAll(g *Gen) {
-	for _, f := range registry {
-		f(g)
+// Register adds a generator (call from init()). The group is the name of the directory of the
+// calling file (core, b1, b2, ...), so that a check can select the groups whose models are integrated.
+func Register(f func(g *Gen)) {
+	group := "other"
+	if _, file, _, ok := runtime.Caller(1); ok {
+		group = filepath.Base(filepath.Dir(file))
+	}
+	registry = append(registry, regEntry{group, f})
+}
+
+// RunAll runs the registered generators of the selected groups (nil = all).
+func RunAll(g *Gen, groups map[string]bool) {
+	for _, e := range registry {
+		if groups == nil || groups[e.group] {
+			e.f(g)
+		}
 	}
 }
 
@@ -162,6 +179,13 @@ func (g *Gen) DecCase(tok int, body []byte, ctx sx.T, last tds.Package, expected
 		g.Out.Case(2, sx.L{sx.I(int64(tok)), sx.B(body), ctx, expected}, sx.L{sx.I(p.Class), sx.I(int64(p.Consumed)), fields}, tag)
 	}
 	if g.Want[3] {
+		// valid = the implementation parses the complete body successfully and consumes all of it
+		// (only then is every proper prefix "a package cut off before its end")
+		full := Parse(tok, body, last)
+		valid := int64(0)
+		if full.Class == 0 && full.Consumed == len(body) {
+			valid = 1
+		}
 		var cls sx.L
 		for n := 0; n < len(body); n++ {
 			cls = append(cls, sx.I(Parse(tok, body[:n], last).Class))
@@ -169,7 +193,7 @@ func (g *Gen) DecCase(tok int, body []byte, ctx sx.T, last tds.Package, expected
 		if cls == nil {
 			cls = sx.L{}
 		}
-		g.Out.Case(3, sx.L{sx.I(int64(tok)), sx.B(body), ctx}, cls, tag)
+		g.Out.Case(3, sx.L{sx.I(int64(tok)), sx.B(body), ctx, sx.I(valid)}, cls, tag)
 	}
 }
 
@@ -183,6 +207,30 @@ func (g *Gen) MalCase(tok int, body []byte, ctx sx.T, last tds.Package, tag stri
 	}
 	p := Parse(tok, body, last)
 	g.Out.Case(4, sx.L{sx.I(int64(tok)), sx.B(body), ctx}, sx.L{sx.I(p.Class)}, tag)
+}
+
+// FuzzCase (fn 5): no panic and no allocation out of proportion to the bytes received, also for
+// readers that are not modelled (BLOB data).  Output (panicked overallocated); the model's answer is (0 0).
+// Bound: 2 MiB (a 16-bit count may size a slice) + 64 bytes per received byte.
+func (g *Gen) FuzzCase(tok int, body []byte, ctx sx.T, last tds.Package, tag string) {
+	if !g.Want[5] {
+		return
+	}
+	if ctx == nil {
+		ctx = sx.L{}
+	}
+	var m0, m1 runtime.MemStats
+	runtime.ReadMemStats(&m0)
+	p := Parse(tok, body, last)
+	runtime.ReadMemStats(&m1)
+	pan, over := int64(0), int64(0)
+	if p.Class == -1 {
+		pan = 1
+	}
+	if m1.TotalAlloc-m0.TotalAlloc > uint64(2<<20+64*len(body)) {
+		over = 1
+	}
+	g.Out.Case(5, sx.L{sx.I(int64(tok)), sx.B(body), ctx}, sx.L{sx.I(pan), sx.I(over)}, tag)
 }
 
 // S renders a Go string (raw bytes) as a byte-string atom.
